@@ -244,3 +244,31 @@ def describe_origin(o, depth=0):
     if k == "agg":
         return "agg:%s%s" % (last_seg(o[3] or "?"), ("::" + o[4]) if o[4] else "")
     return "(" + " ".join(describe_origin(x, depth + 1) if isinstance(x, tuple) else str(x) for x in o) + ")"
+
+
+# ---------------------------------------------------------------------------
+# K6(i): ordering floors
+
+def check_floors(ctx, pid):
+    """one obligation per floor-table entry of this property."""
+    from .. import atomics
+    from ..ordering_table import entries_for
+
+    ents = entries_for(pid)
+    ks = atomics.keyed_sites(ctx.prog)
+    n = 0
+    for key, (floors, props, reason) in sorted(ents.items()):
+        fn, field, op, idx = key
+        kid = "%s|%s|%s#%d" % (fn, field or "-", op, idx)
+        if key not in ks:
+            ctx.ob("floor|" + kid, False,
+                   "expected atomic operation not found: %s on `%s` in %s (the operation kind is part of the requirement: %s)" % (op, field or "fence", fn, reason))
+            continue
+        site, ords = ks[key]
+        n += 1
+        ok = len(ords) == len(floors) and all(atomics.at_least(a, f) for a, f in zip(ords, floors))
+        ctx.ob("floor|" + kid, ok,
+               "memory ordering %s is weaker than the floor %s: %s" % (ords, floors, reason) if not ok else
+               "ordering %s >= floor %s: %s" % (ords, floors, reason), [site])
+    # population (informational, keeps the evidence honest about what exists)
+    return n
